@@ -162,6 +162,47 @@ def scanDefault (req : Bool) (a : Args) : Args :=
 def scan? (req : Bool) (tag : Bytes) : Option (Bytes × Args) :=
   (parse? tag).map (fun va => (va.1, scanDefault req va.2))
 
+/-! ### histories: editing the arguments of one property, then creating another one
+
+  NewProperty (component_definition/property.go:21-33) allocates a FRESH map for every call (`args := make(TagArg)`)
+  and parses the tag text into it; `Args()` (:176) hands out that map, `SetArg` / `AddArg` (:180-186) and
+  `Args().Set` / `Args().Add` (arg.go:40-54) all write into the map of THAT property only.  So the state a property is
+  created in is the text alone — which is what the functions below say: the edits are applied to A, B is created from
+  its own text. -/
+
+/-- TagArg.Add (arg.go:48-54): empty names are ignored, otherwise the items are appended to what the (formatted) key
+    holds (a missing key holds nothing) -/
+def addArg (m : Args) (k : Bytes) (v : List Bytes) : Args :=
+  match k with
+  | [] => m
+  | b :: rest => ainsert (upperFirst b ++ rest) ((alookup (upperFirst b ++ rest) m).getD [] ++ v) m
+
+/-- one edit of a property's arguments: `Args().Set` / `SetArg` (add = false) or `Args().Add` / `AddArg` (add = true) -/
+structure ArgOp where
+  add : Bool
+  name : Bytes
+  items : List Bytes
+
+def applyOp (a : Args) (op : ArgOp) : Args :=
+  if op.add then addArg a op.name op.items else setArg a op.name op.items
+
+def applyOps (a : Args) (ops : List ArgOp) : Args := ops.foldl applyOp a
+
+/-- how a property comes into being: directly through NewProperty (`scanned = false`) or through a tag scanner whose
+    `Required` field is `req` -/
+def create? (scanned req : Bool) (tag : Bytes) : Option (Bytes × Args) :=
+  if scanned then scan? req tag else parse? tag
+
+/-- a history: property A is created from `t` and edited by `ops`; property B is created from `t2` (before or after the
+    edits, in the same scan, a later scan or a later application of the process — B has its own map in every case).
+    Result: (A after the edits, B).  `none` = panic -/
+def hist? (scanned req : Bool) (t : Bytes) (ops : List ArgOp) (t2 : Bytes) :
+    Option ((Bytes × Args) × (Bytes × Args)) :=
+  match create? scanned req t, create? scanned req t2 with
+  | some (va, aa), some b => some ((va, applyOps aa ops), b)
+  | _, _ => none
+
+
 /-- the ExtractHandler of the value processor: `prop:"k,args"` becomes `${k},args`; `none` = panic -/
 def propShorthand? (tagVal : Bytes) : Option Bytes :=
   let i := index cComma isLB isRB tagVal
